@@ -251,7 +251,7 @@ CHECKS['C15'] = dict(
     exhaustive={'quick': True, 'thorough': True},
     stages=[
         dict(name='faults', harness=H('c15', ['harness/c15_lifecycle.cpp'], ldflags=FAULT_LD), env={'VERIF_CASE_TIMEOUT': '900'}, replay_timeout=1800,
-             plan={'quick': 'faults=all,cycles=160:40', 'thorough': 'faults=all,cycles=5000:100'}),
+             plan={'quick': 'faults=all,cycles=160:40', 'thorough': 'faults=all,cycles=1200:100'}),
     ],
 )
 
